@@ -355,4 +355,21 @@ theorem expandRecord_mask (pm : PMsg) (m : Msg) (g : Globals) (ci si di : Nat) (
     · rfl
   | none => rw [(c2 hraw).1]; exact hmask
 
+/-- D11 at the level of a run: an accumulator with mask 0 (what `new(uint32Accumulator)` gives for
+    total_cycles and accumulated_power) reports its starting value for every raw value -/
+theorem accValues_mask_zero (a : Accu) (hm : a.mask = 0) (hv : a.value < 2 ^ 32) (ds : List Nat) :
+    accValues a ds = ds.map fun _ => a.value := by
+  induction ds generalizing a with
+  | nil => rfl
+  | cons d r ih =>
+    have e : (Accu.accumulate a d).2 = a.value := by
+      unfold Accu.accumulate
+      simp only [hm, Nat.and_zero, Nat.add_zero]
+      exact Nat.mod_eq_of_lt hv
+    have hm' : (Accu.accumulate a d).1.mask = 0 := by rw [accumulate_mask]; exact hm
+    have hv' : (Accu.accumulate a d).1.value = a.value := by rw [accumulate_value, e]
+    simp only [accValues, List.map_cons, e]
+    congr 1
+    rw [ih _ hm' (by rw [hv']; exact hv), hv']
+
 end Fit
